@@ -2,6 +2,7 @@
 //!
 //! Environment knobs (debugging only, never needed for a verdict):
 //!   DCSIM_TRACE=1      print the datagram log and the per-stream records of every executed case
+//!                      (tcp_cut_*: the records of both halves and of the forwarder)
 //!   DCSIM_ECHO=<file>  write the udp case that is about to run as a replay file (crash hunting)
 //!   DCSIM_BACKTRACE=1  print a backtrace for panics inside the simulation thread
 //!   DCSIM_SMALL=1      udp_generated draws one small polite stream (small reproductions)
@@ -15,6 +16,7 @@ mod oracle;
 mod script;
 mod sim;
 mod tcp;
+mod tcp_cut;
 
 fn main() {
     if std::env::var_os("S2N_LOG").is_none() {
